@@ -27,6 +27,7 @@ use std::time::{Duration, Instant};
 mod ep;
 mod gen;
 mod models;
+mod itermodels;
 
 // ------------------------------------------------------------------ allocation guard
 /// Counting allocator. Per thread: live bytes, peak, and an optional ceiling. When a case
@@ -742,6 +743,7 @@ pub fn run(args: &[String]) {
         "replay" => replay(&args[1..]),
         "shrink" => shrink_cmd(&args[1..]),
         "models" => models::run(&args[1..]),
+        "iters" => itermodels::run(&args[1..]),
         "list" => {
             for c in ep::CLASSES.iter() {
                 println!("{} quick={} thorough={} entry={}", c.name, c.quick, c.thorough, c.entry);
